@@ -239,14 +239,14 @@ PROPS = {
     "C13": {
         "harness": "c13",
         "props_file": "Props/C13.v",
-        "run_module": "Model.Codec Model.RunC13",
-        "run_fn": "run_c13",
+        "run_module": "Model.Codec Model.RunC13 Model.Jsr Model.RunJsr Model.RunJsrAll",
+        "run_fn": "run_c13j",
         "pinned_theorems": ["C13_roundtrip", "C13_roundtrip_exact", "C13_roundtrip_unordered", "C13_enc_injective",
                             "C13_enc_injective_unordered", "C13_v1_upgrade_keys",
                             "C13_v1_upgrade", "C13_v1_upgrade_general", "C13_v1_no_pragma", "C13_v1_module",
                             "C13_v1_untouched", "C13_roundtrip_holdsb_correct", "C13_v1_holdsb_correct",
                             "C13_v1_model_holds"],
-        "rule": ("part (a) of C13 only (codec + moduleGraph1 upgrade). Cases, in this order: the exhaustive "
+        "rule": ("part (a) of C13 (codec + moduleGraph1 upgrade), then part (b) on registry worlds. Cases, in this order: the exhaustive "
                  "enumeration of the discrete shapes (683: every static/dynamic kind x optional field presence x "
                  "attribute shape x argument shape, every reference/jsdoc variant x resolution mode, all 256 "
                  "subsets of non-empty ModuleInfo fields); the ModuleInfo of every module source embedded in "
@@ -264,11 +264,12 @@ PROPS = {
         "assumptions": [
             "JSON at serde_json::Value level (text layer trusted); numbers are u64 below 2^62; other numbers are outside the modelled domain",
             "find_deno_types (regex) enters the model as a table computed by the real function; the theorems hold for every such function",
-            "part (b) of C13 (manifest shortcut equals parsing) is not covered by this check",
+            "part (b): the last 3000 (quick) / 60000 (thorough) cases are generated registries (stage B2 worlds: 1-3 packages x 1-3 versions x 1-3 files, relative / jsr: / https-registry imports, static and dynamic, stale package documents, odd exports) in which EVERY version manifest embeds the module info the real analyser produces from the served sources, manifests carry the honest checksums and the file cache holds the same bytes or nothing; each world is built twice by the real builder, as published and with moduleGraph1/2 stripped from every manifest: the serialised graphs (modules, dependencies, redirects, errors, packages) must be equal; the with-info build must also equal the registry model (Model/Jsr.v), which takes its dependencies from the embedded info",
+            "part (b) holds only under that proviso: a file whose served bytes fail the manifest checksum has its dependencies loaded in the embedded-info build (the module is built before its content arrives) but not in the parsing build; such worlds are in the C03/C05 streams, not here",
             "real from_value(model_enc(mi)) = mi is obtained from model_enc(mi) = real to_value(mi) as unordered values (compared on every case) and the real round trip with permuted object keys (checked directly on every case)",
             "the range attached to an upgraded types specifier is the one module_graph_1_to_2 computes (comment start + 2 + regex byte offsets -1/+1, unbounded arithmetic in the model); the property text does not constrain it. Observed on the real code: it differs from what the current analyser computes for the same source when the pragma is quote-less (14..24 instead of 15..23 for `// @deno-types=./a.d.ts`) or contains / is preceded by non-ASCII text (byte instead of character offsets), and `character` = usize::MAX in a manifest makes module_graph_1_to_2 overflow (panic with overflow checks)",
         ],
-        "partial": ["part (b) of C13 (graph built from embedded module info equals graph built by parsing) is not modelled yet; only the codec and the moduleGraph1 upgrade are proved and tied to the code"],
+        "partial": ["part (b) (graph built from embedded module info equals graph built by parsing) is decided per case on the real code (relational) and against the registry model; it is not a theorem; the codec and the moduleGraph1 upgrade are proved and tied to the code"],
     },
     "C20": {
         "harness": "c20",
